@@ -20,8 +20,7 @@ def replay_rows(ctx, records, variants=3):
     vf.write_ndjson(rows, records)
     mm = os.path.join(ctx.work, "rule-mismatches.ndjson")
     s = ctx.vh(["replay-rule", "in=" + rows, "out=" + mm, "variants=%d" % variants])
-    if s["rejected"]:
-        raise vf.Inconclusive("the real parser rejected %d rendered pool rules (renderer problem)" % s["rejected"])
+    # (a rejected row rule is a mismatch record of its own, cause "rejected-valid-rule")
     return s, vf.read_ndjson(mm)
 
 
